@@ -9,7 +9,17 @@ namespace Hub.Model
 open Hub.SDK
 open Hub.Generated (Status AmountForBytes GetProportionOfCoin Gigabyte)
 
-/-- The part of the state the swap ledger and the price bounds are about. -/
+/-- The custommint part of the state: the schedule, the three SDK mint parameters, the minter's rate. -/
+structure MintView where
+  inflations : Tbl Time Inflation
+  mintMax : Dec
+  mintMin : Dec
+  mintRate : Dec
+  minterInfl : Dec
+
+def mv (s : State) : MintView := ⟨s.inflations, s.mintMax, s.mintMin, s.mintRate, s.minterInfl⟩
+
+/-- The part of the state the swap ledger, the price bounds and the inflation schedule are about. -/
 structure HubView where
   swaps : Tbl Bytes Swap
   supply : Tbl Denom Int
@@ -17,8 +27,9 @@ structure HubView where
   modified : Modified
   nodeActive : Tbl Addr Node
   nodeInactive : Tbl Addr Node
+  mint : MintView
 
-def hv (s : State) : HubView := ⟨s.swaps, s.supply, s.params, s.modified, s.nodeActive, s.nodeInactive⟩
+def hv (s : State) : HubView := ⟨s.swaps, s.supply, s.params, s.modified, s.nodeActive, s.nodeInactive, mv s⟩
 
 /-- The same without the node tables. -/
 structure CoreView where
@@ -26,15 +37,17 @@ structure CoreView where
   supply : Tbl Denom Int
   params : Params
   modified : Modified
+  mint : MintView
 
-def cv (s : State) : CoreView := ⟨s.swaps, s.supply, s.params, s.modified⟩
+def cv (s : State) : CoreView := ⟨s.swaps, s.supply, s.params, s.modified, mv s⟩
 
 theorem cv_of_hv {s s' : State} (h : hv s' = hv s) : cv s' = cv s := by
   have h1 : s'.swaps = s.swaps := congrArg HubView.swaps h
   have h2 : s'.supply = s.supply := congrArg HubView.supply h
   have h3 : s'.params = s.params := congrArg HubView.params h
   have h4 : s'.modified = s.modified := congrArg HubView.modified h
-  unfold cv; rw [h1, h2, h3, h4]
+  have h5 : mv s' = mv s := congrArg HubView.mint h
+  unfold cv; rw [h1, h2, h3, h4, h5]
 
 theorem hv_swaps {s s' : State} (h : hv s' = hv s) : s'.swaps = s.swaps := congrArg HubView.swaps h
 theorem hv_supply {s s' : State} (h : hv s' = hv s) : s'.supply = s.supply := congrArg HubView.supply h
@@ -42,6 +55,9 @@ theorem hv_params {s s' : State} (h : hv s' = hv s) : s'.params = s.params := co
 theorem hv_modified {s s' : State} (h : hv s' = hv s) : s'.modified = s.modified := congrArg HubView.modified h
 theorem hv_nodeActive {s s' : State} (h : hv s' = hv s) : s'.nodeActive = s.nodeActive := congrArg HubView.nodeActive h
 theorem hv_nodeInactive {s s' : State} (h : hv s' = hv s) : s'.nodeInactive = s.nodeInactive := congrArg HubView.nodeInactive h
+theorem hv_mint {s s' : State} (h : hv s' = hv s) : mv s' = mv s := congrArg HubView.mint h
+theorem cv_mint {s s' : State} (h : cv s' = cv s) : mv s' = mv s := congrArg CoreView.mint h
+theorem mv_inflations {s s' : State} (h : mv s' = mv s) : s'.inflations = s.inflations := congrArg MintView.inflations h
 theorem cv_swaps {s s' : State} (h : cv s' = cv s) : s'.swaps = s.swaps := congrArg CoreView.swaps h
 theorem cv_supply {s s' : State} (h : cv s' = cv s) : s'.supply = s.supply := congrArg CoreView.supply h
 theorem cv_params {s s' : State} (h : cv s' = cv s) : s'.params = s.params := congrArg CoreView.params h
@@ -318,14 +334,18 @@ theorem nodeStatus_cv {s s' : State} {frm : Addr} {st : Status} (h : nodeStatus 
 
 /-! ### begin of block -/
 
-theorem hv_mintBeginBlock_go (l : List Inflation) (s : State) : hv (mintBeginBlock.go s l) = hv s := by
+/-- The custommint hook touches only the custommint part. -/
+theorem mintBeginBlock_go_frame (l : List Inflation) (s : State) :
+    (mintBeginBlock.go s l).swaps = s.swaps ∧ (mintBeginBlock.go s l).supply = s.supply ∧
+    (mintBeginBlock.go s l).params = s.params ∧ (mintBeginBlock.go s l).modified = s.modified ∧
+    (mintBeginBlock.go s l).nodeActive = s.nodeActive ∧ (mintBeginBlock.go s l).nodeInactive = s.nodeInactive := by
   induction l generalizing s with
-  | nil => rfl
+  | nil => exact ⟨rfl, rfl, rfl, rfl, rfl, rfl⟩
   | cons item rest ih =>
     unfold mintBeginBlock.go
     split
-    · rfl
-    · rw [ih]; rfl
+    · exact ⟨rfl, rfl, rfl, rfl, rfl, rfl⟩
+    · exact ih _
 
 theorem hv_distrSweep (s : State) : hv (distrSweep s) = hv s := by
   unfold distrSweep
@@ -340,7 +360,9 @@ theorem payoutStep_hv {s s' : State} {k : Time × Nat} (h : payoutStep s k = .ok
   rw [← e]
   split <;> rfl
 
-theorem beginBlock_hv {s s' : State} {t : Time} (h : beginBlock s t = .ok s') : hv s' = hv s := by
+/-- The whole begin-of-block: after the custommint hook nothing of the view changes any more. -/
+theorem beginBlock_hv {s s' : State} {t : Time} (h : beginBlock s t = .ok s') :
+    hv s' = hv (mintBeginBlock { s with time := t, height := s.height + 1, events := [] }) := by
   unfold beginBlock haltOf at h
   split at h <;> try contradiction
   rename_i s'' hs
@@ -349,7 +371,16 @@ theorem beginBlock_hv {s s' : State} {t : Time} (h : beginBlock s t = .ok s') : 
   unfold subscriptionBeginBlock at hs
   have := foldlM_hv _ (fun s0 k s1 h1 => by rw [panicIfErr_eq_ok] at h1; exact payoutStep_hv h1) _ _ _ hs
   rw [this, hv_distrSweep]
-  exact hv_mintBeginBlock_go _ _
+
+/-- … and the ledger, parameters, flags and node tables are those from before the block. -/
+theorem beginBlock_frame {s s' : State} {t : Time} (h : beginBlock s t = .ok s') :
+    s'.swaps = s.swaps ∧ s'.supply = s.supply ∧ s'.params = s.params ∧ s'.modified = s.modified ∧
+    s'.nodeActive = s.nodeActive ∧ s'.nodeInactive = s.nodeInactive := by
+  have e := beginBlock_hv h
+  obtain ⟨a, b, c, d, f, g⟩ := mintBeginBlock_go_frame
+    (inflationOrder { s with time := t, height := s.height + 1, events := [] }) { s with time := t, height := s.height + 1, events := [] }
+  exact ⟨(hv_swaps e).trans a, (hv_supply e).trans b, (hv_params e).trans c, (hv_modified e).trans d,
+    (hv_nodeActive e).trans f, (hv_nodeInactive e).trans g⟩
 
 /-! ### end of block -/
 
@@ -480,21 +511,36 @@ theorem endBlock_decompose {s s' : State} (h : endBlock s = .ok s') :
   exact ⟨sa, s1, s3, ha, hb, by rw [subscriptionEndBlock_hv hd, sessionEndBlock_hv hc], rfl⟩
 
 theorem endBlock_ledger {s s' : State} (h : endBlock s = .ok s') :
-    s'.swaps = s.swaps ∧ s'.supply = s.supply ∧ s'.params = s.params := by
+    s'.swaps = s.swaps ∧ s'.supply = s.supply ∧ s'.params = s.params ∧ mv s' = mv s := by
   obtain ⟨sa, sb, sc, h1, h2, h3, rfl⟩ := endBlock_decompose h
   have e : cv sc = cv s := (cv_of_hv h3).trans ((nodeExpire_cv h2).trans ((nodeSweep_cv h1).trans rfl))
-  show sc.swaps = s.swaps ∧ sc.supply = s.supply ∧ sc.params = s.params
-  exact ⟨cv_swaps e, cv_supply e, cv_params e⟩
+  show sc.swaps = s.swaps ∧ sc.supply = s.supply ∧ sc.params = s.params ∧ mv sc = mv s
+  exact ⟨cv_swaps e, cv_supply e, cv_params e, cv_mint e⟩
 
 /-! ### governance -/
 
 theorem gov_ledger {s s' : State} {c : ParamChange} (h : gov s c = some s') :
-    s'.swaps = s.swaps ∧ s'.supply = s.supply ∧ s'.nodeActive = s.nodeActive ∧ s'.nodeInactive = s.nodeInactive := by
+    s'.swaps = s.swaps ∧ s'.supply = s.supply ∧ s'.nodeActive = s.nodeActive ∧ s'.nodeInactive = s.nodeInactive ∧ mv s' = mv s := by
   unfold gov at h
   cases c <;> simp only [] at h <;> (try split at h) <;>
     first
-      | (simp only [Option.some.injEq] at h; rw [← h]; exact ⟨rfl, rfl, rfl, rfl⟩)
+      | (simp only [Option.some.injEq] at h; rw [← h]; exact ⟨rfl, rfl, rfl, rfl, rfl⟩)
       | (simp only [reduceCtorEq] at h)
+
+/-- The swap handler touches neither the parameters, the flags nor the node tables. -/
+theorem swap_nodes {s s' : State} {frm recv : Addr} {hash : Bytes} {amt : Int} (h : swap s frm hash recv amt = .ok s') :
+    s'.params = s.params ∧ s'.modified = s.modified ∧ s'.nodeActive = s.nodeActive ∧ s'.nodeInactive = s.nodeInactive ∧
+    mv s' = mv s := by
+  unfold swap sendModuleToAccount mintCoins at h
+  simp only [bind_eq_ok, pure_eq_ok, require_eq_ok] at h
+  obtain ⟨_, _, _, _, _, _, q, _, coin, _, s1, ⟨nb, _, ns, _, rfl⟩, s2, h2, rfl⟩ := h
+  split at h2
+  · simp [reject] at h2
+  · have := sendCoins_hv h2
+    show s2.params = s.params ∧ s2.modified = s.modified ∧ s2.nodeActive = s.nodeActive ∧ s2.nodeInactive = s.nodeInactive ∧
+      mv s2 = mv s
+    exact ⟨(hv_params this).trans rfl, (hv_modified this).trans rfl, (hv_nodeActive this).trans rfl, (hv_nodeInactive this).trans rfl,
+      (hv_mint this).trans rfl⟩
 
 /-! ### messages -/
 
